@@ -238,7 +238,7 @@ Definition write (i : dinfo) (t : tnode) : outcome (list N) :=
   match write_parts t with
   | Ok (dict, data) =>
     match enc_file i (enc_recs dict) data with
-    | Some bytes => Ok bytes
+    | Some bytes => if DER_MAX <? len_N bytes then Err 1 else Ok bytes   (* Document::try_from *)
     | None => Err 1
     end
   | Err e => Err e
